@@ -1,5 +1,6 @@
 import RtcVerif.Model.C15
 import RtcVerif.Proofs.C15
+import RtcVerif.Proofs.C15Fin
 import RtcVerif.Props.C19
 /-!
 # C15 — trajectory accessors agree with each other and with the extracted results
@@ -470,6 +471,74 @@ theorem ciStateAt_eq_extracted (c : CIn) (neg : Bool) (t : Rat) (hs : Sorted c.s
   have := C19.interp_scalar_early_exit_agrees c.mode hm (signedHist neg c.series) hs'
     (finFill (firstVal (signedHist neg c.series))) (finFill (lastVal (signedHist neg c.series))) t hne'
   simpa [signedHist] using congrArg ofOut this
+
+/-! ## totality: when the accessors are defined -/
+
+/-- **`state_at` with `extrapolate=True` never raises and never returns NaN** for a variable of the
+    decision vector (non-empty grid and history, valid mode): it is always a number — so the end
+    points `states_in` / `integral` / `der_at` ask for always exist. -/
+theorem svStateAt_num (t0 : Rat) (v : SVar) (neg : Bool) (t : Rat)
+    (hm : v.mode ≤ 2) (hne : v.knots ≠ []) (hh : ∀ h, v.hist = some h → h ≠ []) :
+    ∃ q, svStateAt t0 v neg t false true = .num q := by
+  by_cases ht : t < t0
+  · cases hhist : v.hist with
+    | none =>
+      exact ⟨_, (svStateAt_before_t0_no_history t0 v neg t ht hhist).1⟩
+    | some h =>
+      rw [svStateAt_before_t0_history t0 v neg t true h ht hhist]
+      simp only [if_true]
+      have hne' : signedHist neg h ≠ [] := by
+        rw [signedHist_eq_scale]; intro e; apply hh h hhist; simpa [scaleKnots] using e
+      exact interpScalar_finite v.mode hm _ hne' _ _ t
+  · rw [svStateAt_eq_interp_results t0 v neg t true (not_lt.1 ht) (Or.inl rfl)]
+    have hne' : v.resultKnots neg ≠ [] := by
+      rw [resultKnots_eq_scale]; intro e; apply hne; simpa [scaleKnots] using e
+    exact interpSym_finite v.mode hm _ hne' t
+
+
+/-- **`states_in` / `integral` are defined** whenever the variable is in the decision vector and
+    the history is available when the window starts before the first time stamp: they raise in no
+    other case (in particular not for windows without time stamps — finding F31 repaired). -/
+theorem statesTimesIn_defined (p : Prob) (name : String) (v : SVar) (a b : Rat) (hist : Knots)
+    (hv : p.svars.lookup (p.canon name).1 = some v)
+    (hw : windowHist v (p.canon name).2 a (v.times.headD 0) = some hist)
+    (hm : v.mode ≤ 2) (hne : v.knots ≠ []) (hh : ∀ h, v.hist = some h → h ≠ []) :
+    ∃ ks, statesTimesIn p name (some a) (some b) = some ks := by
+  have htimes : p.timesOf name = v.times := by simp [Prob.timesOf, hv]
+  have hend : ∀ inner t, ∃ x, endKnot p name inner t = some x := by
+    intro inner t
+    unfold endKnot
+    by_cases h : hasTime inner t = true
+    · exact ⟨[], by simp [h]⟩
+    · obtain ⟨q, hq⟩ := svStateAt_num p.t0 v (p.canon name).2 t hm hne hh
+      refine ⟨[(t, q)], ?_⟩
+      simp only [h]
+      unfold endPoint
+      rw [stateAt_decision_variable p name v t false true hv, hq]
+      rfl
+  unfold statesTimesIn
+  simp only [hv, htimes, Option.getD_some, Option.bind_some, bind, hw]
+  obtain ⟨x0, h0⟩ := hend (inWindow a b hist ++ inWindow a b
+    (v.times.zip (v.xs.map (fun x => x * v.nominal * sgn (p.canon name).2)))) a
+  obtain ⟨xf, hf⟩ := hend (inWindow a b hist ++ inWindow a b
+    (v.times.zip (v.xs.map (fun x => x * v.nominal * sgn (p.canon name).2)))) b
+  exact ⟨_, by rw [h0, hf]; rfl⟩
+
+/-- the two cases in which they do raise -/
+theorem statesTimesIn_raises (p : Prob) (name : String) (a b : Rat) :
+    (p.svars.lookup (p.canon name).1 = none → statesTimesIn p name (some a) (some b) = none) ∧
+    (∀ v, p.svars.lookup (p.canon name).1 = some v → a < v.times.headD 0 → v.hist = none →
+        statesTimesIn p name (some a) (some b) = none) := by
+  constructor
+  · intro h
+    simp [statesTimesIn, h]
+  · intro v hv ha hh
+    have htimes : p.timesOf name = v.times := by simp [Prob.timesOf, hv]
+    have hw : windowHist v (p.canon name).2 a (v.times.headD 0) = none := by
+      unfold windowHist
+      rw [if_pos ha, hh]
+    unfold statesTimesIn
+    simp only [hv, htimes, Option.getD_some, Option.bind_some, bind, hw, Option.bind_none]
 
 /-! ## Non-vacuity: a concrete problem satisfying the hypotheses used above -/
 
